@@ -389,6 +389,41 @@ class StorageWorld(StorageBase):
             self.run.violate(("C08", "C04"), "load-differs", "after rewriting a file with different content of the same size, loading it returns "
                              "something other than what was written (stale?)", "load-differs")
 
+    def op_write_twin(self, op):
+        """Overwrite a file with a value that is == in Python and of the same serialized length, but a different JSON
+        value (an integral float and an integer swap spellings)."""
+        path = op["file"]
+        base = copy.deepcopy(op["value"])
+        holder = base["signed"] if isinstance(base, dict) and isinstance(base.get("signed"), dict) else None
+        if holder is None:
+            return self.run.ev("noop")
+        holder["fa"] = float(op["a"])
+        holder["ib"] = int(op["b"])
+        v1 = base
+        v2 = copy.deepcopy(base)
+        h2 = v2["signed"]
+        h2["fa"] = int(op["a"])
+        h2["ib"] = float(op["b"])
+        if len(refcanon(v1)) != len(refcanon(v2)):
+            return self.run.ev("noop")
+        for v in (v1, v2):
+            w = self.calls.raw("write_metadata_to_file", copy.deepcopy(v), path)
+            if not w.ok:
+                self.run.violate(("C08",), "write-failed", "write_metadata_to_file raised %r" % (w,), "write-failed:" + w.cls)
+                return
+            if not self._check_file(path, v, "write (twin value)"):
+                self.model.pop(path, None)
+                return
+            lo = self.calls.raw("load_metadata_from_file", path)
+            if not lo.ok or not typed_eq(lo.value, v):
+                self.run.violate(("C08",), "load-differs", "after writing a value that is == to the previous content but a different JSON value, "
+                                 "loading returns something other than what was written", "load-differs")
+                self.model.pop(path, None)
+                return
+        self.model[path] = v2
+        self.dirty.discard(path)
+        self.run.probe("twin_value_written")
+
     def op_write_bad(self, op):
         """A persist attempt that cannot succeed (a draft holding something JSON cannot express) must leave the stored,
         signed file untouched - its trust status must not change."""
@@ -889,6 +924,9 @@ class StorageWorld(StorageBase):
             return {"op": "load_edit_discard", "file": f}
         if r < 0.68:
             return {"op": "rewrite_same_size", "file": f, "pick": rng.randint(0, 20), "same_instant": rng.random() < 0.5}
+        if r < 0.70:
+            return {"op": "write_twin", "file": f, "value": {"signatures": {}, "signed": gen.gen_payload(rng, nonf) if rng.random() < 0.5 else {"k": 1}},
+                    "a": rng.randint(2, 99), "b": rng.randint(2, 99)}
         if r < 0.72:
             return {"op": "write_bad", "file": f, "bad": rng.choice(["bytes", "set", "mixedkeys", "circular", "keyobj", "deep"])}
         if r < 0.76:
@@ -1016,6 +1054,14 @@ class InplaceWorld(StorageBase):
         if self.scn is None:
             kind = rng.choice(["repodata-lib", "repodata-lib", "repodata-cli", "gpg-file", "gpg-cli"])
             op = {"op": "scenario", "kind": kind, "fmt": rng.choice(FORMATS)}
+            # where the file lives: publishers sign staged copies, backups and oddly named files too
+            if rng.random() < 0.45:
+                base = "repodata" if kind.startswith("repodata") else "root"
+                op["target"] = rng.choice(["stage/%s.json.tmp", "stage/%s.tmp", "repo/%s.json.partial", "repo/%s.json.bak", "repo/%s.unsigned", "repo/%s",
+                                           "repo/.%s.json.swp", "linux-64/%s.json.signing", "repo/%s.json.new", "repo/%s.json~", "repo/1.%s.json", "repo/%s.json.lock",
+                                           "%s.json", "repo/%s.JSON", "repo/%s.json.tmp.json"]) % base
+            if rng.random() < 0.3:
+                op["siblings"] = rng.sample([".tmp", ".bak", ".lock", ".partial", ".new", "~", ".signing", ".orig"], rng.randint(1, 3))
             if kind.startswith("repodata"):
                 r = rng.random()
                 if r < 0.8:
@@ -1044,7 +1090,7 @@ class InplaceWorld(StorageBase):
 
     def op_scenario(self, op):
         self.scn = op
-        self.target = "repo/repodata.json" if op["kind"].startswith("repodata") else "md/root.json"
+        self.target = op.get("target") or ("repo/repodata.json" if op["kind"].startswith("repodata") else "md/root.json")
         if "raw_bytes" in op:
             content = op["raw_bytes"].encode("utf-8")
         elif op["kind"].startswith("repodata"):
@@ -1056,6 +1102,12 @@ class InplaceWorld(StorageBase):
                 E["signatures"][self.keys.pub[1]] = {"other_headers": "0400", "signature": sig.hex()}
             content = dump_as(E, op.get("fmt", "canon"))
         self.initial = {self.target: content}
+        for suffix in op.get("siblings", ()):
+            # leftovers of earlier (interrupted) runs or other tools next to the target, under both naming habits
+            stem = self.target.rsplit(".", 1)[0] if "." in self.target.rsplit("/", 1)[-1].lstrip(".") else self.target
+            for nm in (self.target + suffix, stem + suffix):
+                if nm != self.target:
+                    self.initial[nm] = b"{\"stale\": true}"
         seed_hex = self.keys.seeds[0].hex()
         k = op.get("key", "good")
         keytext = {"good": seed_hex + "\n", "short": seed_hex[:-2], "upper": seed_hex.upper(), "nonhex": "zz" + seed_hex[2:],
@@ -1218,6 +1270,10 @@ class InplaceWorld(StorageBase):
         def counting(kind, path):
             if kind == "open_w" and path == self.target and marker["n"] is None:
                 marker["n"] = self.fs.counter
+            if kind == "write" and path == self.target and marker["n"] is not None and marker.get("w") is None:
+                marker["w"] = self.fs.counter
+            if marker["n"] is not None and marker.get("w") is None and self.fs.counter > marker["n"]:
+                marker.setdefault("between", []).append((self.fs.counter + 1, kind))
             return orig_op(kind, path)
         self.fs._op = counting
         self._invoke()
@@ -1235,9 +1291,17 @@ class InplaceWorld(StorageBase):
             plan.append(["gpg", "create", ""])
             plan.append(["gpg", "export", ""])
             plan.append(["gpg", "nosslib", ""])
+        # whatever the code chooses to do on the opened output before it writes the first byte (take a lock, stat, open a
+        # side file ...) can fail, and that is a failure before the output is written: judged
+        between = [(k, kd) for k, kd in marker.get("between", []) if kd != "write"]
+        for k, kd in between:
+            for code in (("EAGAIN", "ENOLCK") if kd == "lock" else ("EIO", "EACCES")):
+                plan.append(["io", k, code])
+            run.probe("operation_between_open_and_first_write")
         # output-phase faults: outside the property's wording; observed, never judged
         for k in range(fs_ops_before + 1, total_fs_ops + 1):
-            plan.append(["io_out", k, "ENOSPC"])
+            if k not in [b[0] for b in between]:
+                plan.append(["io_out", k, "ENOSPC"])
         if only:
             plan = [only]
         for item in plan:
